@@ -1,7 +1,8 @@
 """C04 - skool2asm, skool2bin and the macro-visible snapshot agree on the assembled image (DESIGN §4 C04).
 
 A  spec/doc/SubFix.tla (documented semantics of @*sub/@*fix directives, blocks, @org, @label, @keep, @bytes,
-   @defb/@defs/@defw, @if as a reader of abstract skool files) is model-checked on all small files (SubFix_mc).
+   @defb/@defs/@defw, @if around any of them, as a reader of abstract skool files) is model-checked on all small files
+   (SubFix_mc, SubFix_mcif).
 C  TLC -simulate (SubFix_sim) writes files with directives of every flag combination; subfixdrv renders them to
    skool text and runs the real skool2bin (12 modes, with and without --data), skool2asm (9 modes x option
    vectors; output assembled by the reference resolver) and skool2html (#PEEK in HTML mode).
@@ -85,15 +86,35 @@ def _pairs(wd):
     return r, progs
 
 
+def _ifs(wd):
+    """pattern D: TLC enumerates every file with one @if-wrapped directive among three instructions (SubFix_ifs.cfg)"""
+    r = tlc.run(os.path.join(SPEC, 'doc'), 'SubFixMC', 'SubFix_ifs.cfg', timeout=300, tag='SubFix-ifs',
+                extra=['-dump', os.path.join(wd, 'ifs')])
+    tlc.check_machinery(r, 'SubFix_ifs')
+    progs = D.dump_programs(os.path.join(wd, 'ifs.dump'), 3)
+    if len(progs) < 150:
+        raise MachineryError('SubFix_ifs: only %d complete files in the dump' % len(progs))
+    return r, progs
+
+
+def _ifs_modes(i):
+    """three of the 12 modes per file, rotating over all of them"""
+    return [D.BIN_MODES[(i + 4 * j + i // 12) % 12] for j in range(3)]
+
+
 def _sim_task(args):
     progs, first, sd, wd, quick = args[:5]
     if len(args) > 5:
         import shutil
-        d = os.path.join(wd, 'q%d' % first)
+        fam = args[5]
+        d = os.path.join(wd, '%s%d' % (fam[0], first))
         os.makedirs(d, exist_ok=True)
         cases = []
         for i, prog in enumerate(progs):
             vec = [D.VECTORS[0], D.VECTORS[(first + i) % 17 + 1]] if quick else _vectors(first + i, True)
+            if fam == 'ifs':
+                cases += D.observe(prog, 'ifs%d' % (first + i), 'ifs', d, i, None, _ifs_modes(first + i), vec, html_too=False)
+                continue
             cases += D.observe(prog, 'pair%d' % (first + i), 'pairs', d, i, None, PAIR_MODES, vec, html_too=False)
         shutil.rmtree(d, ignore_errors=True)
         return cases
@@ -161,7 +182,7 @@ def run(tier):
     ng2 = 96 if quick else 1000
     # ---- A: the specification itself, in the background
     mcres = []
-    mcjobs = [('SubFix_mc.cfg', 3, 3)] if quick else [('SubFix_mcx.cfg', 3, 3), ('SubFix_mc.cfg', 1, 2), ('SubFix_mc.cfg', 0, 0),
+    mcjobs = [('SubFix_mc.cfg', 3, 3), ('SubFix_mcif.cfg', 1, 2)] if quick else [('SubFix_mcif.cfg', 3, 3), ('SubFix_mcif.cfg', 2, 1), ('SubFix_mcif.cfg', 1, 2), ('SubFix_mcif.cfg', 0, 0), ('SubFix_mcx.cfg', 3, 3), ('SubFix_mc.cfg', 1, 2), ('SubFix_mc.cfg', 0, 0),
                                                      ('SubFix_mc.cfg', 2, 1), ('SubFix_mc.cfg', 3, 1)]
 
     def mc_all():
@@ -178,6 +199,11 @@ def run(tier):
         rep.model_violation(rp, 'SubFix_pairs')
         pasync = pool.map_async(_task, [('sim', (pairs[k::nchunk], k * 10000, sd, wd, quick, 'pairs')) for k in range(nchunk)
                                         if pairs[k::nchunk]], chunksize=1)
+        ri, ifs = _ifs(wd)
+        rep.add_tlc(ri, 'SubFix_ifs')
+        rep.model_violation(ri, 'SubFix_ifs')
+        # files are dealt out one by one: file k of the enumeration gets the index k, so that modes rotate over all files
+        iasync = pool.map_async(_task, [('sim', ([ifs[j]], j, sd, wd, quick, 'ifs')) for j in range(len(ifs))], chunksize=8)
         th = threading.Thread(target=mc_all)
         th.start()
         # ---- C: files written by TLC
@@ -189,7 +215,7 @@ def run(tier):
         progs = progs[:nsim]
         log('C04: %d files written by TLC (%.1fs)' % (len(progs), time.time() - t0))
         tasks = [('sim', (progs[k::nchunk], k * 10000, sd, wd, quick)) for k in range(nchunk) if progs[k::nchunk]]
-        parts = pool.map(_task, tasks, chunksize=1) + g2async.get() + pasync.get()
+        parts = pool.map(_task, tasks, chunksize=1) + g2async.get() + pasync.get() + iasync.get()
         log('C04: tools done (%.1fs)' % (time.time() - t0))
     finally:
         pool.terminate()
@@ -229,6 +255,33 @@ def run(tier):
             rep.nontrivial.add((c['key'], c['am'], c['fm']))
         for v in c['vecs']:
             vecs_seen[(g, v[0])] += 1
+    # @if: how often a wrapped directive of each class met a true / false condition, and was in force, per mode
+    ifc = Counter()
+    for i, c in enumerate(allc):
+        if c['gen'] not in ('sim', 'ifs'):
+            continue
+        claimed, dropped = stats[i][0], stats[i][4]
+        m = 'm%d%d' % (c['am'], c['fm'])
+        for cls, val, live in D.if_classes(c['prog'], c['am'], c['fm']):
+            tf = 'true' if val else 'false'
+            ifc['%s:%s' % (cls, tf)] += 1
+            ifc['%s:%s' % (m, tf)] += 1
+            if cls in ('rem', 'sub-flagged'):
+                ifc['%s:%s:%s' % (cls, m, tf)] += 1
+            if live and claimed:
+                ifc[cls + ':in-force-and-claimed'] += 1
+                if cls == 'rem' and dropped:
+                    ifc['rem:in-force-claimed-line-dropped'] += 1
+                if c['hasasm']:
+                    ifc[cls + ':in-force-asm-compared'] += 1
+    rep.extra['if_wrapped (class of the wrapped directive : condition value, per mode)'] = dict(ifc)
+    lackif = [k for k in ['%s:%s' % (cls, tf) for cls in ('rem', 'sub-flagged', 'sub-plain', 'lab', 'keep', 'nowarn') for tf in ('true', 'false')]
+              + ['m%d%d:%s' % (a, f, tf) for a, f in D.BIN_MODES for tf in ('true', 'false')]
+              + ['%s:m%d%d:%s' % (cls, a, f, tf) for cls in ('rem', 'sub-flagged') for a, f in D.BIN_MODES for tf in ('true', 'false')]
+              + ['rem:in-force-and-claimed', 'rem:in-force-claimed-line-dropped', 'rem:in-force-asm-compared',
+                 'sub-flagged:in-force-and-claimed', 'sub-flagged:in-force-asm-compared'] if not ifc[k]]
+    if lackif:
+        raise MachineryError('vacuous: @if-wrapped directives never exercised: %s of %s' % (lackif, dict(ifc)))
     feat = Counter()
     for p in progs:
         for ln in p:
@@ -239,6 +292,8 @@ def run(tier):
                 feat['sublabel'] += 1 if ln['lab'] else 0
             elif ln['l'] == 'ins':
                 feat['tok:' + ln['tok']['k']] += 1
+            elif ln['l'] == 'if':
+                feat['if:' + ln['yes']['l']] += 1
     rep.extra['cases'] = dict(cnt)
     rep.extra['model_notes (why a case is outside the claim / not definite)'] = dict(notes)
     rep.extra['generated_lines'] = dict(feat)
@@ -259,9 +314,9 @@ def run(tier):
         lack = [D.vec_code(v) for v in D.VECTORS if not vecs_seen[(g, D.vec_code(v))]]
         if lack:
             raise MachineryError('vacuous: option vectors never run for %s: %s' % (g, lack))
-    if cnt['pairs:claimed'] < cnt['pairs:cases'] // 2:
-        raise MachineryError('vacuous: pairs %s' % dict(cnt))
-    for g in ('sim', 'g2', 'pairs'):
+    if cnt['pairs:claimed'] < cnt['pairs:cases'] // 2 or cnt['ifs:claimed'] < cnt['ifs:cases'] // 2:
+        raise MachineryError('vacuous: pairs / ifs %s' % dict(cnt))
+    for g in ('sim', 'g2', 'pairs', 'ifs'):
         c = next(c for c in allc if c['gen'] == g)
         rep.sample({'key': c['key'], 'mode': [c['am'], c['fm']], 'skool': c['text'].split('\n')[7:30], 'bin': c['bin'], 'vecs': c['vecs']})
     rep.rule = ('sim: files written by TLC (-simulate of SubFix: <= 6 instruction lines from a token alphabet whose bytes identify '
@@ -270,6 +325,10 @@ def run(tier):
                 'skool2asm modes) x option vectors (quick: 6 per file rotating over all 18; thorough: 18); g2: random files over '
                 'all instruction forms and operand spellings x 4 modes x 18 vectors; pairs: every file TLC enumerates with 0-2 '
                 'directives (12 flag combinations x with/without instruction) on the first of three instructions x 3 modes; '
+                'ifs: every file TLC enumerates with one @if-wrapped directive (a flagged @*sub/@*fix on the first, a ! removal / '
+                '@label / @keep / @nowarn before any of three instructions; conditions over {asm} / {fix}, and over {base} / {case} / '
+                '{html} / {vars[..]} around @nowarn) x 3 of the 12 modes rotating; in sim files @if wraps directives of every kind '
+                '(all flag combinations, removals, @org, @label, @keep, @nowarn, @defb/@defs/@defw, @bytes) under every relation; '
                 'distinct_nontrivial = (file, mode) pairs '
                 'inside the claim (no model note of SubFix!UnclaimedNotes)')
     rep.assumptions = [
